@@ -294,6 +294,8 @@ def work(task):
     sample = None
     if kind == 'asm':
         return work_asm(task, sieve, stats)
+    if kind == 'bigpool':
+        return work_bigpool(task, sieve, stats)
     _, tier, w, fam, part, nparts = task
     gen = {'single': single_specs, 'pair': pair_specs, 'triple': triple_specs}[fam](w, tier)
     path = scratch() / f'c06-{w}.fjm'
@@ -311,6 +313,50 @@ def work(task):
                 sample = {'w': w, 'calls': calls}
     stats['distinct_valid'] = len(valid_keys)
     return stats, sieve.result(), sample
+
+
+def work_bigpool(task, sieve, stats):
+    """one data pool larger than every LZMA dictionary threshold below it that repeats itself at a distance above 8 MiB
+    (finding F20): the compressed version must read back like the others, for every preset."""
+    import random
+    from fjv.enginecheck import scratch
+    from flipjump.fjm.fjm_consts import FJMVersion
+    from flipjump.fjm.fjm_reader import Reader
+    from flipjump.fjm.fjm_writer import Writer
+    _, tier, w, preset = task
+    rnd = random.Random(20)  # a fixed incompressible block, not a sample: only its size and its repetition matter
+    nblock = (9 << 20) // (w // 8)
+    nblock += nblock & 1
+    block = [rnd.getrandbits(w) for _ in range(nblock)]
+    data = block + block
+    path = scratch() / f'c06-big-{w}-{preset}.fjm'
+    case = {'w': w, 'version': 3, 'preset': preset, 'family': 'bigpool', 'words': len(data), 'block_bytes': nblock * w // 8}
+    stats['runs'] += 1
+    stats['sequences'] += 1
+    try:
+        wr = Writer(path, w, FJMVersion(3), lzma_preset=preset)
+        ds = wr.add_data(data)
+        wr.add_segment(0, len(data), ds, len(data))
+        wr.write_to_file()
+    except Exception as e:  # noqa
+        sieve.add({'kind': 'big data pool rejected by the writer', 'class': 'bigpool write', 'case': case, 'expected': 'written',
+                   'observed': f'{type(e).__name__}: {str(e)[:100]}', 'summary': f'w={w} preset={preset}: a {len(data)}-word pool was not written'})
+        return stats, sieve.result(), None
+    try:
+        r = Reader(path)
+        bad = sum(1 for i, v in enumerate(data) if r.memory.get(i, 0) != v)
+        obs = None if not bad else f'{bad} words differ'
+    except Exception as e:  # noqa
+        obs = f'{type(e).__name__}: {str(e)[:100]}'
+    path.unlink()
+    if obs:
+        sieve.add({'kind': 'accepted by the writer, refused or loaded differently by the reader', 'class': 'bigpool read', 'case': case,
+                   'expected': 'the written words', 'observed': obs,
+                   'summary': f'w={w} v=3 preset={preset}: a {len(data) * w // 8 >> 20} MiB pool repeating at a distance of 9 MiB does not read back: {obs}'})
+    else:
+        stats['valid_loaded'] += 1
+        stats['distinct_valid'] = 1
+    return stats, sieve.result(), None
 
 
 def work_asm(task, sieve, stats):
@@ -387,6 +433,10 @@ def make_tasks(tier, only=None):
     for prog in progs:
         for w in ((64, 32, 16) if tier == 'thorough' else (64, 32)):
             tasks.append(('asm', tier, w, prog))
+    for preset in ((9, 7) if tier != 'thorough' else (9, 8, 7, 6)):
+        tasks.insert(0, ('bigpool', tier, 64, preset))
+    if tier == 'thorough':
+        tasks.insert(0, ('bigpool', tier, 32, 9))
     if only:
         tasks = [t for t in tasks if only in (t[0], t[3] if len(t) > 3 else '')]
     return tasks
@@ -396,6 +446,15 @@ def replay(args):
     from fjv.enginecheck import scratch
     rec = load_replay(args.replay)
     c = rec['case']
+    if c.get('family') == 'bigpool':
+        stats, res, _ = work(('bigpool', 'quick', c['w'], c['preset']))
+        for rec2 in res[0]:
+            print('PROBLEM', rec2['summary'])
+        if res[0]:
+            print(f'VIOLATION property={PROP} replay={args.replay}')
+            return 1
+        print('replay: ok')
+        return 0
     if 'calls' not in c or 'version' not in c:
         print('replay of cross-version / assembled cases: re-run the check')
         return 1
